@@ -68,14 +68,21 @@ def rule_advance(ctx):
         calls = [(bi, t, f.call_expr(t, bi)) for bi, t, p in f.calls() if short(p) in ORDER and 'RegretParams' in p]
         names = [short(e[1]) for _, _, e in calls]
         rets = [bi for bi in f.reach if f.blocks[bi]['term']['t'] == 'return']
-        once = names == ORDER
-        chain = once and all(f.dominates(calls[i][0], calls[i + 1][0]) for i in range(3)) and all(f.dominates(calls[-1][0], r) for r in rets)
-        ctx.verdict(once and chain, rule, '%s:%s:sequence' % (rule, nm), 'advance calls regret_match, discount_cum_regret, discount_average_strat, cum_regret — each once, in this order, on every path', f.where(0),
+        # each helper exactly once on every path; the three that touch the cumulative regrets in the order
+        # match -> discount -> report.  discount_average_strat works on the cumulative strategy only
+        # (argument provenance below), so its position relative to the others is immaterial.
+        once = sorted(names) == sorted(ORDER)
+        by = {short(e[1]): bi for bi, _, e in calls}
+        chain = once and all(all(f.dominates(by[n], r) for r in rets) for n in ORDER) and \
+            f.dominates(by['regret_match'], by['discount_cum_regret']) and by['regret_match'] != by['discount_cum_regret'] and \
+            f.dominates(by['discount_cum_regret'], by['cum_regret']) and by['discount_cum_regret'] != by['cum_regret']
+        ctx.verdict(once and chain, rule, '%s:%s:sequence' % (rule, nm), 'advance calls regret_match, discount_cum_regret, discount_average_strat, cum_regret — each once on every path, with match before the regret discount before the report', f.where(0),
                     'calls in dominance order: %s' % names, breaks='the next strategy is matched on already-discounted regrets (or similar): iterates differ from discounted CFR')
         skeletons.setdefault(nm, None)
         if not once:
             continue
-        rm, dr, da, cr = [c[2] for c in calls]
+        cd = {short(c[2][1]): c[2] for c in calls}
+        rm, dr, da, cr = [cd[n] for n in ORDER]
         it = ('param', 2, f.local_name(2))
         checks = [
             ('regret_match(cum_regret, strat)', field_names(rm[2][1])[:1] == ['cum_regret'] and field_names(rm[2][2])[:1] == ['strat']),
@@ -113,6 +120,77 @@ def rule_advance(ctx):
         ctx.anchor_lost(rule, 'advance implementations', 'found %d of 3' % len(skeletons))
 
 
+def preset_value(ctx, lib, name, depth=0):
+    """(pos_regret, neg_regret, strat, no_positive) a preset constructor returns, evaluated from its MIR:
+    struct literal, RegretParams::new(..), another preset, or struct-update syntax over another preset"""
+    f = lib.one('solve::data::RegretParams::' + name)
+    if f is None or depth > 4:
+        return None
+    ctx.touch(f)
+    KEYS = ('pos_regret', 'neg_regret', 'strat', 'no_positive')
+
+    def scalar(e):
+        e = strip_refs(e)
+        if e[0] == 'const' and e[1] is not None:
+            try:
+                return float(e[1])
+            except (TypeError, ValueError):
+                return None
+        if e[0] == 'field' and e[2] in KEYS:
+            inner = strip_refs(e[1])
+            if inner[0] == 'call' and 'RegretParams' in inner[1] and not inner[2]:
+                v = preset_value(ctx, lib, short(inner[1]), depth + 1)
+                return v[KEYS.index(e[2])] if v else None
+        return None
+    r = strip_refs(q.ret_expr(f))
+    if r[0] == 'call' and 'RegretParams' in r[1] and short(r[1]) == 'new' and len(r[2]) == 4:
+        vals = tuple(scalar(a) for a in r[2])
+        return vals if None not in vals else None
+    if r[0] == 'call' and 'RegretParams' in r[1] and not r[2]:
+        return preset_value(ctx, lib, short(r[1]), depth + 1)
+    for bi, st, fields in q.struct_sites(f, 'RegretParams'):
+        vals = tuple(scalar(fields[k]) if k in fields else None for k in KEYS)
+        if None not in vals:
+            return vals
+    for bi, t, e in q.calls_named(f, 'new'):
+        if 'RegretParams' in e[1] and len(e[2]) == 4:
+            vals = tuple(scalar(a) for a in e[2])
+            if None not in vals:
+                return vals
+    return None
+
+
+def defaulted_params(f, e):
+    """is e `params.unwrap_or_default()` (or an equivalent spelling) of the Option<RegretParams> parameter?"""
+    e = strip_refs(e)
+
+    def is_param(x):
+        x = strip_refs(x)
+        return x[0] == 'param' and 'RegretParams' in f.locals[x[1]]['ty'] and 'Option' in f.locals[x[1]]['ty']
+
+    def is_default_call(x):
+        x = strip_refs(x)
+        return (x[0] == 'call' and not x[2] and ('RegretParams' in x[1] or 'Default' in x[1]) and short(x[1]) in ('default', 'dcfr')) or \
+               (x[0] == 'fn' and short(x[1]) in ('default', 'dcfr') and ('RegretParams' in x[1] or 'Default' in x[1]))
+    if e[0] == 'call' and short(e[1]) == 'unwrap_or_default' and is_param(e[2][0]):
+        return True
+    if e[0] == 'call' and short(e[1]) in ('unwrap_or', 'unwrap_or_else') and is_param(e[2][0]) and is_default_call(e[2][1]):
+        return True
+    if e[0] == 'var':
+        vals = q.multi_def_values(f, e[1])
+        some = none = False
+        for bi, cs, v in vals:
+            v = strip_refs(v)
+            if v[0] == 'field' and strip_refs(v[1])[0] == 'downcast' and strip_refs(v[1])[2] == 'Some' and is_param(strip_refs(v[1])[1]):
+                some = True
+            elif is_default_call(v) and any(c['kind'] == 'variant' and c['variants'] == ['None'] and is_param(c['a']) for c in cs):
+                none = True
+            else:
+                return False
+        return some and none
+    return False
+
+
 def rule_presets(ctx):
     rule = 'C08.presets'
     lib = ctx.lib
@@ -120,19 +198,7 @@ def rule_presets(ctx):
         f = ctx.fn('lib', 'solve::data::RegretParams::' + name, rule)
         if f is None:
             continue
-        vals = None
-        for bi, st, fields in q.struct_sites(f, 'RegretParams'):
-            try:
-                vals = tuple(float(fields[k][1]) for k in ('pos_regret', 'neg_regret', 'strat', 'no_positive'))
-            except (KeyError, TypeError, ValueError):
-                vals = None
-        if vals is None:
-            for bi, t, e in q.calls_named(f, 'new'):
-                if 'RegretParams' in e[1]:
-                    try:
-                        vals = tuple(float(a[1]) for a in e[2])
-                    except (TypeError, ValueError):
-                        pass
+        vals = preset_value(ctx, lib, name)
         ctx.verdict(vals == want, rule, '%s:%s' % (rule, name), 'RegretParams::%s() is the documented tuple (alpha, beta, gamma, no-positive weight) = %s' % (name, want), f.where(0),
                     'constants: %s; documented because %s' % (vals, reason), breaks='a named preset denotes other parameters than documented')
         # doc comment agreement where the doc prints the numbers
@@ -144,23 +210,30 @@ def rule_presets(ctx):
     f = ctx.fn('lib', '<solve::data::RegretParams as std::default::Default>::default', rule)
     if f is not None:
         r = strip_refs(q.ret_expr(f))
-        ctx.verdict(q.is_call(r, 'dcfr') and 'RegretParams' in r[1], rule, rule + ':default-is-dcfr', 'Default::default() is the documented default preset dcfr', f.where(0), 'returns %s' % facts.show(r))
+        same = q.is_call(r, 'dcfr') and 'RegretParams' in r[1]
+        if not same:
+            # spelled out: must be the dcfr tuple
+            vals = None
+            for bi, st, fields in q.struct_sites(f, 'RegretParams'):
+                try:
+                    vals = tuple(float(fields[k][1]) for k in ('pos_regret', 'neg_regret', 'strat', 'no_positive'))
+                except (KeyError, TypeError, ValueError):
+                    vals = None
+            same = vals == PRESETS['dcfr'][0]
+        ctx.verdict(same, rule, rule + ':default-is-dcfr', 'Default::default() is the documented default preset dcfr', f.where(0), 'returns %s' % facts.show(r))
     f = ctx.fn('lib', 'Game::<I, A>::solve', rule)
     if f is not None:
-        u = [(bi, t, e) for bi, t, e in q.calls_named(f, 'unwrap_or_default')]
-        ok = any(strip_refs(e[2][0])[0] == 'param' and 'RegretParams' in f.locals[strip_refs(e[2][0])[1]]['ty'] for bi, t, e in u)
-        ctx.verdict(ok, rule, rule + ':none-means-default', 'omitted parameters mean RegretParams::default()', f.where(u[0][0]) if u else f.where(0), 'params.unwrap_or_default(): %s' % ok)
-        # and that value is what every solver gets
+        # the value every solver gets must be `params` with None replaced by RegretParams::default()
         bad = []
         n = 0
         for bi, t, p in f.calls():
             if short(p).startswith('solve_'):
                 n += 1
                 e = f.call_expr(t, bi)
-                last = strip_refs(e[2][-1])
-                if not q.is_call(last, 'unwrap_or_default'):
+                if not defaulted_params(f, e[2][-1]):
                     bad.append(short(p))
-        ctx.verdict(not bad and n == 6, rule, rule + ':solvers-get-params', 'every solver receives exactly these parameters', f.where(0), '%d solver calls; others: %s' % (n, bad))
+        ctx.verdict(not bad and n == 6, rule, rule + ':none-means-default', 'omitted parameters mean RegretParams::default(): every solver receives `params` with None replaced by the default', f.where(0),
+                    '%d solver calls; not receiving params-or-default: %s' % (n, bad), breaks='omitting the parameters selects something else than the documented default')
 
 
 def eq_table(f, value_pred):
